@@ -166,16 +166,16 @@ impl RawPeer {
 
     /// Waits until `pred` holds on the recorder (polling; bounded).
     pub async fn wait_for(&self, limit: Duration, pred: impl Fn(&RawPeer) -> bool) -> bool {
-        let t0 = std::time::Instant::now();
-        loop {
-            if pred(self) {
-                return true;
+        // (load-adjusted bound, see util::within)
+        let poll = async {
+            loop {
+                if pred(self) {
+                    return;
+                }
+                tokio::time::sleep(Duration::from_millis(2)).await;
             }
-            if t0.elapsed() > limit {
-                return false;
-            }
-            tokio::time::sleep(Duration::from_millis(2)).await;
-        }
+        };
+        matches!(within(limit, poll).await, Waited::Done(()))
     }
 
     /// (wire code, reason) of the CONNECTION_CLOSE the endpoint sent, if the connection ended so.
